@@ -205,6 +205,6 @@ SUBS = [
 
 MANIFEST = dict(
     technique="property-based testing: Hypothesis-generated beat-space skeletons rendered to .sm text with the format's syntactic freedom, compared with an independent StepMania interpreter (tokenizer + exact Fraction rows + piecewise tempo integration)",
-    level_text="Exploration: thousands of rendered files per run (1..4 charts, 36 chart types / widths 3..18, all multiples of 4 rows per measure up to 192/384, mid-measure tempo changes in both decimal encodings, all eight symbols, comments/blank lines, three read entry points) agree with the reference interpreter on every object's column, millisecond position and length, on chart order and header fields and on the presence of every tempo change. The renderer and the reference check each other inside every case (harness error on disagreement). Sampling cannot prove absence.",
+    level_text="Exploration: thousands of rendered files per run (1..4 charts, 36 chart types / widths 3..18, all multiples of 4 rows per measure up to 192/384, mid-measure tempo changes in both decimal encodings, all eight symbols, comments/blank lines, three read entry points) agree with the reference interpreter on every object's column, millisecond position and length, on chart order and header fields and on the presence of every tempo change. The renderer and the reference check each other inside every case (harness error on disagreement). Sampling cannot prove absence. Thorough adds an atheris/libFuzzer campaign on the same strategy (coverage.fuzz in the evidence).",
     level_note="trusted: vlib/ref/sm.py (~200 lines), vlib/ref/timing.py, Hypothesis; domain restrictions in ASSUMPTIONS (no stops, #STOPS after #BPMS, separator-free comments/values, LF for read(str))",
 )
